@@ -1,10 +1,24 @@
 HOOK_COMMITS = ["7de202d", "7f6c320", "bd5f58f", "f5c511f", "6cf08df", "6a57454"]
-FIX_COMMITS = ["7a73b90", "307c7cf", "73e9739", "b6ad768", "06a0422", "37593fd", "b26bda1", "ef4414e", "83534a3", "9d32858", "8df6799", "bfa46be", "d5169bc", "e984a30", "8e975df", "0e9fd95", "93bc5a2", "0df18c2", "dae6c16", "f32a1a0", "6b14b06", "641f662", "5fd891f", "12b678f", "5af4846", "35b9151", "1a0d573", "4dd26bc", "3419442", "a44aef0", "bfa15ff", "db4d047", "05ea952", "1883869", "befdf8c"]
+FIX_COMMITS = ["7a73b90", "307c7cf", "73e9739", "b6ad768", "06a0422", "37593fd", "b26bda1", "ef4414e", "83534a3", "9d32858", "8df6799", "bfa46be", "d5169bc", "e984a30", "8e975df", "0e9fd95", "93bc5a2", "0df18c2", "dae6c16", "f32a1a0", "6b14b06", "641f662", "5fd891f", "12b678f", "5af4846", "35b9151", "1a0d573", "4dd26bc", "3419442", "a44aef0", "bfa15ff", "db4d047", "05ea952", "1883869", "befdf8c", "bcd23fd", "1927f9b", "ac62d90", "f75f317", "6a8014c", "daaa51f", "ba3fa7b"]
 
 NOTE_COMMON = ("Trusted: Lean kernel (axioms propext/Classical.choice/Quot.sound only), the hand-written model's "
                "fidelity outside the sampled correspondence, rustc/std and third-party crates as black boxes, the guarded hooks.")
 
 CLAIMS = {
+    "C17": {
+        "level": "A reference interpreter of the vic core is written in Lean (total, fuel-indexed). Kernel-checked about it: the parser's left fold makes arithmetic "
+                 "strictly left to right (value of a chain = left-to-right application of the operators to the operand values, errors included); block scoping for "
+                 "every program, fuel and environment: after any if/elif/else, while/until or for statement - whatever its bodies declare, assign, loop over, call "
+                 "or return - and after any function call, the visible variable names are frame by frame those from before (proved by a nine-way mutual invariant "
+                 "over the whole interpreter), hence a name not visible before a block is not visible after it. Every run generates programs from the core grammar "
+                 "(depth <= 4, ~40 statements), runs the real `vicut '<script>'` and compares stdout and exit status with the interpreter on the same AST; scope "
+                 "probes read a block-local variable after the block.",
+        "note": NOTE_COMMON + " PARTIAL: the tie between vic.pest/parse_vic and the AST the generator emits is by construction of the generator (source and AST are "
+                "produced together) and validated only through the output comparison; built-ins fed from an input buffer are not generated; break/continue, ternaries, "
+                "regex values, registers, buffers and the Vim-command statements are outside the core. Eight genuine defects were repaired on the way (call arguments, "
+                "negative literals, && || chains, <= and **, for over a literal array, element assignment in a block, nested return).",
+        "technique": "Lean 4 reference interpreter + proof (mutual invariant by induction on fuel; left-fold lemma) + differential run of generated programs against the real CLI",
+    },
     "C20": {
         "level": "Kernel-checked for every command content (verbs and motions are opaque), every count, every register and every in-between history: '.' after a "
                  "repeatable X hands exactly X to the editor; non-repeatable commands (motions, yanks, searches, failed commands) in between leave the recorded "
